@@ -312,6 +312,16 @@ func (c *Chain[I, O]) AppendBranch(b *ChainBranch) *Chain[I, O] { // nolint: byt
 		return c
 	}
 
+	if b.internalBranch == nil {
+		c.reportError(fmt.Errorf("append branch invalid, branch has no condition (create it with NewChainBranch)"))
+		return c
+	}
+
+	if c.hasEnd {
+		c.reportError(ErrChainCompiled)
+		return c
+	}
+
 	if len(b.key2BranchNode) == 0 {
 		c.reportError(fmt.Errorf("append branch invalid, nodeList is empty"))
 		return c
@@ -524,7 +534,9 @@ func (c *Chain[I, O]) addNode(node *graphNode, options *graphAddNodeOpts) {
 		return
 	}
 
-	if c.gg.compiled {
+	if c.gg.compiled || c.hasEnd {
+		// hasEnd: a Compile attempt has connected the last stage to END (it may have failed afterwards, e.g. on an
+		// option): a stage appended now would stay unconnected and be silently ignored
 		c.reportError(ErrChainCompiled)
 		return
 	}
